@@ -145,13 +145,13 @@ CLAIMED = {
    note="Trusted: Coq kernel, translator (constants, opcode predicates, ValidCloseCode), extraction, harness incl. the in-memory transport and the VerifAttach hook (client role after the handshake). Masking keys are an environment input taken from the implementation's wire. UTF-8 validation of text payloads (off by default), the server role and TLS are not modelled. Real sockets and event-loop interleavings are C17's/C01's subject.",
    technique="Coq proof (round-trip law + wire invariant by induction over histories); differential correspondence + extracted parser oracle"),
  "C01": dict(
-   text=("PARTIAL proof + full correspondence. Coq theorems (7, closed) about the hand-written model of file.go / "
+   text=("PARTIAL proof + full correspondence. Coq theorems (8, closed) about the hand-written model of file.go / "
          "internal/poll_linux.go / io.go (work-list machine; the epoll batch is an input, so all batches, masks and handler "
          "programs are quantified over): a batch entry for an object without interest dispatches nothing and changes "
          "nothing (never twice); Close leaves no interest and invokes nothing; every system-call attempt ends in exactly "
          "one completion or a re-arm; a deferred read reported with IN, HUP or ERR is dispatched by that poll (never zero "
          "times - FIFO hang-up with only a read interest included); Cancel completes the in-flight read once with the "
-         "cancellation error (an EPERM-class error when the descriptor was closed underneath and epoll refuses the call); over ALL histories of script lines a closed object keeps no interest, so no later batch entry invokes a callback of it. The whole-history statement (exactly one callback per started operation, none after Close) "
+         "cancellation error (an EPERM-class error when the descriptor was closed underneath and epoll refuses the call); over ALL histories of script lines a closed object keeps no interest, so no later batch entry invokes a callback of it; and NEVER TWICE over ALL histories (Proofs/LoopOnce.v): for any callback identifier used only for I/O operations, any objects, handler programs, batches and peer behaviour, as long as the script does not itself start an operation on a direction that still has one deferred in flight (ghost flag l_overlap), callbacks run + operations registered with the poller + invocations waiting on the work list <= operations started - with one identifier per operation no completion callback runs twice (refuted without the contract by a vm_compute example). The remaining whole-history statement (never zero times: exactly one callback per started operation, none after Close) "
          "is the extracted ledger oracle Spec/OpLedger.v, applied to the model's and to the implementation's trace of "
          "every script (sockets, FIFO read/write ends, regular files, listeners, descriptors closed underneath the object; several ready descriptors per batch; handlers that "
          "re-issue, cancel, close or re-arm their own or another object; peer data/close/RST/hang-up; inline and deferred "
@@ -159,8 +159,8 @@ CLAIMED = {
          "count and depth, Pending(), Dispatched, interest bits, registry membership, the batch itself)."),
    note=("Trusted: Coq kernel, extraction, harness glue, the kernel environment model (validated by the correspondence run). "
          "Modelled: File, Conn-as-file, listener and packet conn objects; the multicast peer and AsyncAdapter copies of the logic are not (C02, C12, C13 "
-         "cover the adapter). The induction of the ledger over whole histories is not proved in Coq."),
-   technique="Coq proof of the per-step dispatch lemmas over all batches and handler programs; differential correspondence + extracted exactly-once ledger oracle over histories"),
+         "cover the adapter). 'Never zero times' over whole histories is proved per poll and judged by the ledger, not as one liveness theorem."),
+   technique="Coq proof: never-twice invariant by induction over the work-list machine and over script lines (all histories), per-step dispatch lemmas over all batches and handler programs; differential correspondence + extracted exactly-once ledger oracle over histories"),
  "C03": dict(
    text=("Coq theorems (4, closed): for every script, every handler program, every poll batch and every peer behaviour - "
          "registrations that fail included (not pollable, or descriptor closed underneath the object with the other direction in flight) - Pending() = registered read/write interests + armed timers + posted handlers "
